@@ -389,7 +389,7 @@ static TOut run_transform(Ctx &c, const Op &op, void *obj, const sim::OpSim &cfg
     t.st = simulate(cfg, [&] {
         void *o = obj ? obj : shim::ntt_new(op.maxn, op.obj_threads, 1);
         if (first_inverse)
-            shim::ntt_INTT(o, d1, S.p(), op.n, ncols, op.buffer ? B.p() : nullptr, op.nphase, op.nblock);
+            (op.inv_via_ntt ? shim::ntt_NTT_inverse : shim::ntt_INTT)(o, d1, S.p(), op.n, ncols, op.buffer ? B.p() : nullptr, op.nphase, op.nblock);
         else
             shim::ntt_NTT(o, d1, S.p(), op.n, ncols, op.buffer ? B.p() : nullptr, op.nphase, op.nblock);
         if (op.kind == plan::K_ROUNDTRIP)
@@ -398,7 +398,7 @@ static TOut run_transform(Ctx &c, const Op &op, void *obj, const sim::OpSim &cfg
             if (first_inverse)
                 shim::ntt_NTT(o, d2, r1, op.n, ncols, op.buffer2 ? B2.p() : nullptr, op.nphase2, op.nblock2);
             else
-                shim::ntt_INTT(o, d2, r1, op.n, ncols, op.buffer2 ? B2.p() : nullptr, op.nphase2, op.nblock2);
+                (op.inv_via_ntt ? shim::ntt_NTT_inverse : shim::ntt_INTT)(o, d2, r1, op.n, ncols, op.buffer2 ? B2.p() : nullptr, op.nphase2, op.nblock2);
         }
         if (!obj)
             shim::ntt_delete(o);
@@ -487,21 +487,43 @@ static void exec_transform(Ctx &c, const Op &op)
         r.faults["noncanonical_inputs"]++;
 
     // --- reference: fresh object, one-member team, clean memory, identity order ----------------
-    sim::IcvState icv = sim::icv_save();
-    sim::OpSim rc = ref_cfg();
-    TOut ref = run_transform(c, op, nullptr, rc, false, 0, in, false);
-    sim::icv_restore(icv);
-    r.ref_steps += ref.st.steps + ref.st.serial_steps;
-    account_memory(c, op, ref.st, "one-member reference run");
-
     // --- main: the plan's object (shared slot or fresh), simulated team, faults ----------------
-    ensure_slot(c, op);
-    void *obj = op.obj < 0 ? nullptr : c.slots[op.obj & 1].o;
+    // Normally the reference goes first (its step count sizes the pct change points and the step
+    // budget).  With main_first (cold-start runs: the first library code a fresh process executes is
+    // the simulated multi-member execution) the order is swapped and the budget is a generous bound,
+    // so that lazily initialised process-global state is first touched by a real team.
+    TOut ref, m;
     sim::OpSim mc = sim_cfg_of(op);
-    uint64_t B = ref.st.steps + ref.st.serial_steps;
-    mc.step_estimate = ref.st.steps;
-    mc.step_limit = 4 * B + 100000ull * 64 + 1000000;
-    TOut m = run_transform(c, op, obj, mc, op.dirty_bufs, op.garbage_seed, in, true);
+    auto do_ref = [&] {
+        sim::IcvState icv = sim::icv_save();
+        sim::OpSim rc = ref_cfg();
+        ref = run_transform(c, op, nullptr, rc, false, 0, in, false);
+        sim::icv_restore(icv);
+        r.ref_steps += ref.st.steps + ref.st.serial_steps;
+        account_memory(c, op, ref.st, "one-member reference run");
+    };
+    auto do_main = [&] {
+        ensure_slot(c, op);
+        void *obj = op.obj < 0 ? nullptr : c.slots[op.obj & 1].o;
+        m = run_transform(c, op, obj, mc, op.dirty_bufs, op.garbage_seed, in, true);
+    };
+    if (op.main_first)
+    {
+        uint64_t elems = std::max<uint64_t>(op.kind == plan::K_EXTEND ? op.n_ext : op.n, 1) * std::max<uint64_t>(op.ncols, 1);
+        mc.step_estimate = elems * 40 + 64;
+        mc.step_limit = 2000000000ull;
+        r.probes.insert("main_before_reference");
+        do_main();
+        do_ref();
+    }
+    else
+    {
+        do_ref();
+        uint64_t B = ref.st.steps + ref.st.serial_steps;
+        mc.step_estimate = ref.st.steps;
+        mc.step_limit = 4 * B + 100000ull * 64 + 1000000;
+        do_main();
+    }
     uint64_t trip = std::max<uint64_t>(op.kind == plan::K_EXTEND ? op.n : op.n, 1);
     account_main(c, op, m.st, trip);
 
@@ -551,6 +573,8 @@ static void exec_transform(Ctx &c, const Op &op)
             r.probes.insert("nphase_not_dividing_log");
         if (op.n == 1)
             r.probes.insert("size==1");
+        if (op.kind != plan::K_NTT && op.inv_via_ntt)
+            r.probes.insert("inverse_via_NTT_flag");
         if (op.kind != plan::K_NTT)
             r.probes.insert(logn % e == 1 || e == logn ? "intt_last_pass_width1" : "intt_last_pass_wider");
     }
@@ -675,18 +699,32 @@ static void exec_merkle(Ctx &c, const Op &op)
             c.violation("source-modified", {"C18", "C08"}, op, "input matrix unchanged", "input changed");
         return T.vec();
     };
-    sim::IcvState icv = sim::icv_save();
     sim::OpStats rst, mst;
-    std::vector<uint64_t> rroot, mroot;
-    std::vector<uint64_t> ref = run(ref_cfg(), false, 0, false, rst, rroot);
-    sim::icv_restore(icv);
-    r.ref_steps += rst.steps + rst.serial_steps;
-    account_memory(c, op, rst, "one-member reference run");
+    std::vector<uint64_t> rroot, mroot, ref, out;
     sim::OpSim mc = sim_cfg_of(op);
-    uint64_t B = rst.steps + rst.serial_steps;
-    mc.step_estimate = rst.steps;
-    mc.step_limit = 4 * B + 100000ull * 64 + 1000000;
-    std::vector<uint64_t> out = run(mc, op.dirty_bufs, op.garbage_seed, true, mst, mroot);
+    auto do_ref = [&] {
+        sim::IcvState icv = sim::icv_save();
+        ref = run(ref_cfg(), false, 0, false, rst, rroot);
+        sim::icv_restore(icv);
+        r.ref_steps += rst.steps + rst.serial_steps;
+        account_memory(c, op, rst, "one-member reference run");
+    };
+    if (op.main_first)
+    {
+        mc.step_estimate = (op.rows * (op.cols * op.dim / 8 + 2)) * 6000 + 64;
+        mc.step_limit = 4000000000ull;
+        r.probes.insert("main_before_reference");
+        out = run(mc, op.dirty_bufs, op.garbage_seed, true, mst, mroot);
+        do_ref();
+    }
+    else
+    {
+        do_ref();
+        uint64_t B = rst.steps + rst.serial_steps;
+        mc.step_estimate = rst.steps;
+        mc.step_limit = 4 * B + 100000ull * 64 + 1000000;
+        out = run(mc, op.dirty_bufs, op.garbage_seed, true, mst, mroot);
+    }
     account_main(c, op, mst, op.rows);
     r.hash = fnv_vec(out, r.hash);
     c.last_out_digest = fnv_vec(out, 1);
